@@ -106,8 +106,10 @@ Proof. exact compile_graph_structure. Qed.
 
 (* Correctness on the additive/bilinear fragment ([thm_frag]: Input, Constant, Zeros, Ones, Add,
    Subtract, the bilinear operations Multiply, Dot, Matmul, Gemm (abstract bi-additive maps [bil]
-   except Multiply, the ring product) and the share-wise lifted unary operations Sum, CumSum,
-   PermuteAxes, Get, GetSlice, Reshape (abstract additive maps [lin]), over arrays/scalars): for every such program, every is_input_private vector, EVERY resharing plan the
+   except Multiply, the ring product), the share-wise lifted unary operations Sum, CumSum,
+   PermuteAxes, Get, GetSlice, Reshape (abstract additive maps [lin]) and the n-ary ones Stack,
+   Concatenate (abstract maps [nlin], additive on operand lists; here apply_op promotes public
+   operands to (x, 0, 0) with emitted Zeros nodes), over arrays/scalars): for every such program, every is_input_private vector, EVERY resharing plan the
    compiler accepts (the proof never looks at the planner), every commutative ring, all inputs, all
    presentations of the private inputs as three shares, all PRF values ([atom]) and all keys:
    if the source graph evaluates, the compiled graph evaluates, and for every source node j the
@@ -116,19 +118,20 @@ Proof. exact compile_graph_structure. Qed.
 Theorem C01_deep_compile_correct_partial :
   forall (R : Type) (r0 r1 : R) (radd rmul rsub : R -> R -> R) (ropp : R -> R),
   ring_theory r0 r1 radd rmul rsub ropp eq ->
-  forall (atom : Z -> R) (catom : value -> R) (one : R) (lin : op -> R -> R) (bil : op -> R -> R -> R),
+  forall (atom : Z -> R) (catom : value -> R) (one : R) (lin : op -> R -> R) (bil : op -> R -> R -> R) (nlin : op -> list R -> R),
   (forall o a b, lin o (radd a b) = radd (lin o a) (lin o b)) ->
   (forall o a a' b, bil o (radd a a') b = radd (bil o a b) (bil o a' b)) ->
   (forall o a b b', bil o a (radd b b') = radd (bil o a b) (bil o a b')) ->
+  (forall o l l', length l = length l' -> nlin o (vadd R radd l l') = radd (nlin o l) (nlin o l')) ->
   forall nodes output flags out oo omap priv use_mul,
   compile_graph_map nodes output flags = Ok (out, oo, omap) ->
   propagate_private_annotations nodes flags = Ok (priv, use_mul) ->
   thm_frag nodes = true ->
   forall ins_s ins_c env_s kv0 kv1 kv2,
-  deval R r0 radd rmul rsub atom catom one lin bil nodes ins_s = Some env_s ->
+  deval R r0 radd rmul rsub atom catom one lin bil nlin nodes ins_s = Some env_s ->
   inrel R radd flags ins_s ins_c ->
   exists env_c,
-    deval R r0 radd rmul rsub atom catom one lin bil out (keys_input R use_mul kv0 kv1 kv2 ++ ins_c) = Some env_c /\
+    deval R r0 radd rmul rsub atom catom one lin bil nlin out (keys_input R use_mul kv0 kv1 kv2 ++ ins_c) = Some env_c /\
     forall j vs, znth env_s j = Ok vs ->
       exists k vc, znth omap j = Ok k /\ znth env_c k = Ok vc /\ rel R radd (mem j priv) vs vc.
 Proof. exact compile_graph_correct. Qed.
@@ -137,29 +140,30 @@ Proof. exact compile_graph_correct. Qed.
 Theorem C01_deep_output_correct_partial :
   forall (R : Type) (r0 r1 : R) (radd rmul rsub : R -> R -> R) (ropp : R -> R),
   ring_theory r0 r1 radd rmul rsub ropp eq ->
-  forall (atom : Z -> R) (catom : value -> R) (one : R) (lin : op -> R -> R) (bil : op -> R -> R -> R),
+  forall (atom : Z -> R) (catom : value -> R) (one : R) (lin : op -> R -> R) (bil : op -> R -> R -> R) (nlin : op -> list R -> R),
   (forall o a b, lin o (radd a b) = radd (lin o a) (lin o b)) ->
   (forall o a a' b, bil o (radd a a') b = radd (bil o a b) (bil o a' b)) ->
   (forall o a b b', bil o a (radd b b') = radd (bil o a b) (bil o a b')) ->
+  (forall o l l', length l = length l' -> nlin o (vadd R radd l l') = radd (nlin o l) (nlin o l')) ->
   forall nodes output flags out oo priv use_mul,
   compile_graph nodes output flags = Ok (out, oo) ->
   propagate_private_annotations nodes flags = Ok (priv, use_mul) ->
   thm_frag nodes = true ->
   forall ins_s ins_c env_s v kv0 kv1 kv2,
-  deval R r0 radd rmul rsub atom catom one lin bil nodes ins_s = Some env_s ->
+  deval R r0 radd rmul rsub atom catom one lin bil nlin nodes ins_s = Some env_s ->
   znth env_s output = Ok (RLeaf R v) ->
   inrel R radd flags ins_s ins_c ->
   exists env_c vc,
-    deval R r0 radd rmul rsub atom catom one lin bil out (keys_input R use_mul kv0 kv1 kv2 ++ ins_c) = Some env_c /\
+    deval R r0 radd rmul rsub atom catom one lin bil nlin out (keys_input R use_mul kv0 kv1 kv2 ++ ins_c) = Some env_c /\
     znth env_c oo = Ok vc /\
     (if mem output priv then reveal3 R radd vc = Some v else vc = RLeaf R v).
 Proof.
-  intros R r0 r1 radd rmul rsub ropp Rth atom catom one lin bil Hlin Hbl Hbr nodes output flags out oo priv um H Hp Hf
+  intros R r0 r1 radd rmul rsub ropp Rth atom catom one lin bil nlin Hlin Hbl Hbr Hnl nodes output flags out oo priv um H Hp Hf
          ins_s ins_c env_s v kv0 kv1 kv2 Hs Hv Hin.
   unfold compile_graph in H. destruct (compile_graph_map nodes output flags) as [[[o1 oo1] omap]| | |] eqn:Hm; try discriminate.
   cbn in H. inversion H; subst o1 oo1.
   destruct (compile_graph_structure _ _ _ _ _ _ Hm) as (p' & u' & Hp' & _ & _ & _ & _ & _ & Hoo).
-  destruct (compile_graph_correct R r0 r1 radd rmul rsub ropp Rth atom catom one lin bil Hlin Hbl Hbr _ _ _ _ _ _ _ _ Hm Hp Hf
+  destruct (compile_graph_correct R r0 r1 radd rmul rsub ropp Rth atom catom one lin bil nlin Hlin Hbl Hbr Hnl _ _ _ _ _ _ _ _ Hm Hp Hf
               _ _ _ kv0 kv1 kv2 Hs Hin) as (env_c & Hev & Hall).
   destruct (Hall _ _ Hv) as (k & vc & Hk & Hvc & Hrel). rewrite Hoo in Hk. inversion Hk; subst k.
   exists env_c, vc. split; [exact Hev|]. split; [exact Hvc|].
@@ -176,12 +180,12 @@ Qed.
    C01_deep_compile_correct_partial is not an assumption about the gadgets. *)
 Theorem C01_deep_gadget_bodies :
   forall (R : Type) (r0 : R) (radd rmul rsub : R -> R -> R) (atom : Z -> R) (catom : value -> R) (one : R)
-         (lin : op -> R -> R) (bil : op -> R -> R -> R) g t0 t1 body oid va vb,
+         (lin : op -> R -> R) (bil : op -> R -> R -> R) (nlin : op -> list R -> R) g t0 t1 body oid va vb,
   elem_gadget g = true ->
   gadget_body g [t0; t1] = Ok (body, oid) ->
   shape_ok R t0 va -> shape_ok R t1 vb ->
   exists env v,
-    deval R r0 radd rmul rsub atom catom one lin bil body [va; vb] = Some env /\
+    deval R r0 radd rmul rsub atom catom one lin bil nlin body [va; vb] = Some env /\
     znth env oid = Ok v /\
     gadget_sem R r0 radd rmul rsub bil g [va; vb] = Some v.
 Proof. exact gadget_body_sem. Qed.
@@ -222,14 +226,14 @@ Definition ex_lin (o : op) (x : Z) : Z := x.
 Example C01_deep_example_evaluates :
   match compile_graph ex_src 5 ex_flags with
   | Ok (out, oo) =>
-      match deval Z 0 Z.add Z.mul Z.sub ex_atom (fun _ => 0) 1 ex_lin (fun _ _ _ => 0) out
+      match deval Z 0 Z.add Z.mul Z.sub ex_atom (fun _ => 0) 1 ex_lin (fun _ _ _ => 0) (fun _ _ => 0) out
                   [RTup Z [RKey Z; RKey Z; RKey Z]; T3 Z 1 2 3; T3 Z 10 20 30; RLeaf Z 5] with
       | Some env => match znth env oo with Ok vc => reveal3 Z Z.add vc | _ => None end
       | None => None
       end
   | _ => None
   end = Some 365
-  /\ deval Z 0 Z.add Z.mul Z.sub ex_atom (fun _ => 0) 1 ex_lin (fun _ _ _ => 0) ex_src
+  /\ deval Z 0 Z.add Z.mul Z.sub ex_atom (fun _ => 0) 1 ex_lin (fun _ _ _ => 0) (fun _ _ => 0) ex_src
            [RLeaf Z 6; RLeaf Z 60; RLeaf Z 5]
      = Some [RLeaf Z 6; RLeaf Z 60; RLeaf Z 5; RLeaf Z 360; RLeaf Z 365; RLeaf Z 365].
 Proof. vm_compute. split; reflexivity. Qed.
@@ -238,13 +242,13 @@ Proof. vm_compute. split; reflexivity. Qed.
 Example C01_deep_example_applies :
   exists env_c vc out oo,
     compile_graph ex_src 5 ex_flags = Ok (out, oo) /\
-    deval Z 0 Z.add Z.mul Z.sub ex_atom (fun _ => 0) 1 ex_lin (fun _ _ _ => 0) out
+    deval Z 0 Z.add Z.mul Z.sub ex_atom (fun _ => 0) 1 ex_lin (fun _ _ _ => 0) (fun _ _ => 0) out
           (keys_input Z true (RKey Z) (RKey Z) (RKey Z) ++ [T3 Z 1 2 3; T3 Z 10 20 30; RLeaf Z 5]) = Some env_c /\
     znth env_c oo = Ok vc /\ reveal3 Z Z.add vc = Some 365.
 Proof.
   destruct (compile_graph ex_src 5 ex_flags) as [[out oo]| | |] eqn:Hc; try (vm_compute in Hc; discriminate).
-  destruct (C01_deep_output_correct_partial Z 0 1 Z.add Z.mul Z.sub Z.opp InitialRing.Zth ex_atom (fun _ => 0) 1 ex_lin (fun _ _ _ => 0)
-              (fun _ _ _ => eq_refl) (fun _ _ _ _ => eq_refl) (fun _ _ _ _ => eq_refl) ex_src 5 ex_flags out oo [5; 4; 3; 1; 0] true Hc)
+  destruct (C01_deep_output_correct_partial Z 0 1 Z.add Z.mul Z.sub Z.opp InitialRing.Zth ex_atom (fun _ => 0) 1 ex_lin (fun _ _ _ => 0) (fun _ _ => 0)
+              (fun _ _ _ => eq_refl) (fun _ _ _ _ => eq_refl) (fun _ _ _ _ => eq_refl) (fun _ _ _ _ => eq_refl) ex_src 5 ex_flags out oo [5; 4; 3; 1; 0] true Hc)
     with (ins_s := [RLeaf Z 6; RLeaf Z 60; RLeaf Z 5]) (ins_c := [T3 Z 1 2 3; T3 Z 10 20 30; RLeaf Z 5])
          (env_s := [RLeaf Z 6; RLeaf Z 60; RLeaf Z 5; RLeaf Z 360; RLeaf Z 365; RLeaf Z 365]) (v := 365)
          (kv0 := RKey Z) (kv1 := RKey Z) (kv2 := RKey Z)
